@@ -247,14 +247,20 @@ class Concat(Expr):
             frames = [
                 (
                     frame[cols]
+                    # When stacking rows, a frame without any of the selected
+                    # columns still contributes its (all-missing) rows; it is
+                    # kept whole so that the declared dtypes account for them
                     if sorted(cols) != sorted(get_columns_or_name(frame))
+                    and len(cols) > 0
                     else frame
                 )
                 for frame, cols in zip(self._frames, columns_frame)
-                # When stacking rows, a frame without any of the selected
-                # columns still contributes its (all-missing) rows
                 if len(cols) > 0 or self.axis == 0
             ]
+            if len(frames) == len(self._frames) and all(
+                new._name == old._name for new, old in zip(frames, self._frames)
+            ):
+                return
             result = type(self)(
                 self.join,
                 self.ignore_order,
